@@ -274,3 +274,86 @@ Proof.
   unfold enc_adj, evtable, qualify. rewrite !nth_error_map, Hn. cbn [option_map fst snd].
   destruct k; reflexivity.
 Qed.
+
+(* ---------------------------------------------------------------- the builders *)
+(* each setter changes its own flag only, and never the method *)
+Lemma call_set_own_field : forall c f b,
+  cv_meth (call_set c (f, b)) = cv_meth c /\
+  (cv_oneway (call_set c (f, b)) = if flag_eqb Oneway f then b else cv_oneway c) /\
+  (cv_more (call_set c (f, b)) = if flag_eqb More f then b else cv_more c) /\
+  (cv_upgrade (call_set c (f, b)) = if flag_eqb Upgrade f then b else cv_upgrade c).
+Proof. intros c [] b; repeat split. Qed.
+
+(* setters of different flags commute; the same setter twice: the later one wins *)
+Lemma call_set_commute : forall c f g a b,
+  f <> g -> call_set (call_set c (f, a)) (g, b) = call_set (call_set c (g, b)) (f, a).
+Proof. intros c [] [] a b H; try reflexivity; congruence. Qed.
+
+Lemma call_set_twice : forall c f a b, call_set (call_set c (f, a)) (f, b) = call_set c (f, b).
+Proof. intros c [] a b; reflexivity. Qed.
+
+Lemma fold_call_set : forall ops c,
+  fold_left call_set ops c =
+  mk_callv (cv_meth c) (last_set Oneway ops (cv_oneway c)) (last_set More ops (cv_more c))
+           (last_set Upgrade ops (cv_upgrade c)).
+Proof.
+  induction ops as [| [f b] ops IH]; intros c.
+  - destruct c. reflexivity.
+  - cbn [fold_left last_set]. rewrite IH. destruct f; reflexivity.
+Qed.
+
+(* Whatever the order in which the setters are applied, the call that results has the method it was
+   made of and, for each flag, what the last setter of THAT flag said (false if none). *)
+Theorem build_call_logical : forall meth ops,
+  build_call meth ops =
+  mk_callv meth (last_set Oneway ops false) (last_set More ops false) (last_set Upgrade ops false).
+Proof. intros. unfold build_call. rewrite fold_call_set. reflexivity. Qed.
+
+Lemma last_set_perm_distinct : forall f ops ops',
+  NoDup (map fst ops) -> Permutation ops ops' -> forall d, last_set f ops d = last_set f ops' d.
+Proof.
+  intros f ops ops' Hnd Hp. induction Hp as [| [g b] l l' Hp IH | [g b] [h c] l | l l' l'' H1 IH1 H2 IH2]; intros d.
+  - reflexivity.
+  - cbn [last_set]. inversion Hnd. subst. now apply IH.
+  - cbn [last_set]. inversion Hnd as [| ? ? Hnot _]. subst. cbn [map fst In] in Hnot.
+    destruct (flag_eqb f h) eqn:E1, (flag_eqb f g) eqn:E2; try reflexivity.
+    exfalso. apply Hnot. left. destruct f, g, h; try discriminate; reflexivity.
+  - rewrite IH1 by exact Hnd. apply IH2.
+    eapply Permutation_NoDup; [apply Permutation_map; exact H1 | exact Hnd].
+Qed.
+
+(* in particular every order of setters of different flags builds the same call *)
+Theorem build_call_order_irrelevant : forall meth ops ops',
+  NoDup (map fst ops) -> Permutation ops ops' -> build_call meth ops' = build_call meth ops.
+Proof.
+  intros meth ops ops' Hnd Hp. rewrite !build_call_logical.
+  now rewrite !(last_set_perm_distinct _ ops ops' Hnd Hp).
+Qed.
+
+Theorem build_reply_logical : forall params ops,
+  build_reply params ops = mk_replyv params (last ops None).
+Proof.
+  intros params ops. unfold build_reply.
+  assert (H : forall r, fold_left reply_set_continues ops r = mk_replyv (rv_params r) (last ops (rv_continues r))).
+  { assert (Hl : forall (l : list (option bool)) x d d', last (x :: l) d = last (x :: l) d').
+    { induction l as [| y l IHl]; intros x d d'; [reflexivity |].
+      change (last (x :: y :: l) d) with (last (y :: l) d).
+      change (last (x :: y :: l) d') with (last (y :: l) d'). apply IHl. }
+    induction ops as [| c ops IH]; intros r; [destruct r; reflexivity |].
+    cbn [fold_left]. rewrite IH. cbn [rv_params rv_continues reply_set_continues].
+    destruct ops as [| o ops]; [reflexivity |].
+    change (last (c :: o :: ops) (rv_continues r)) with (last (o :: ops) (rv_continues r)).
+    now rewrite (Hl ops o c (rv_continues r)). }
+  now rewrite H.
+Qed.
+
+(* the wire image of a built call: the encoding of its logical value (flags only when set) *)
+Theorem built_call_encoding : forall M meth ops ms0,
+  encoder M meth = Some (JObj ms0) ->
+  enc_call M (call_rval (build_call meth ops)) =
+  Some (JObj (ms0 ++ flag_members (last_set Oneway ops false) (last_set More ops false)
+                                  (last_set Upgrade ops false))).
+Proof.
+  intros M meth ops ms0 H. rewrite build_call_logical. unfold call_rval, enc_call, mk_call.
+  cbn [cv_meth cv_oneway cv_more cv_upgrade]. now rewrite H.
+Qed.
